@@ -15,3 +15,4 @@ pub mod c12;
 pub mod c16;
 pub mod c17;
 pub mod c18;
+pub mod c20;
